@@ -29,6 +29,7 @@ pub mod c13;
 pub mod specbin;
 pub mod scalar;
 pub mod mixed;
+pub mod domprobes;
 pub mod c03;
 pub mod c04;
 pub mod c05;
